@@ -47,6 +47,8 @@ type SK struct {
 	srcs []string // for Tainted: the distinct user-controlled sources (sorted)
 	esc  uint8    // for Tainted: metacharacter classes already escaped on every tainted (source-derived) component
 	depEsc uint8  // the same for the parameter-derived components (deps)
+	orig []string // model field paths the value is derived from, kept through sanitisers (origin tracking)
+	odeps uint64  // parameters whose origins flow into the value (through sanitisers too)
 }
 
 // escaped marks every component of k as having passed an escaper for the classes in m.
@@ -94,7 +96,7 @@ func mergeSrcs(a, b []string) []string {
 }
 
 func skJoin(a, b SK) SK {
-	out := SK{k: a.k, deps: a.deps | b.deps, why: a.why, srcs: mergeSrcs(a.srcs, b.srcs)}
+	out := SK{k: a.k, deps: a.deps | b.deps, why: a.why, srcs: mergeSrcs(a.srcs, b.srcs), orig: mergeSrcs(a.orig, b.orig), odeps: a.odeps | b.odeps}
 	if b.k > a.k {
 		out.k = b.k
 		out.why = b.why
@@ -134,6 +136,8 @@ type taintConfig struct {
 	modelType  func(t *types.Named) bool
 	// writes into a buffer by an external function: callee → (buffer arg index, kind written)
 	bufWriters map[string]Kind
+	// trackOrigins: record the access path (Type.Field.Field) of every model field a value derives from
+	trackOrigins bool
 	// loopEscapers: recognise byte-wise escaper loops (if s[i] == c { write escape }) as escaping c
 	loopEscapers bool
 	// onSprintf is called for every format call the slice passes through (JS sinks are judged there)
@@ -386,6 +390,9 @@ func (e *taintEngine) kind0(v ssa.Value, depth int) SK {
 		return sk(KNum)
 	case *ssa.Field:
 		if k, ok := e.modelFieldKind(x.X.Type(), x.Field); ok {
+			if e.cfg.trackOrigins {
+				k.orig = []string{e.modelPath(x)}
+			}
 			return k
 		}
 		if nt := namedOf(x.X.Type()); nt != nil && e.cfg.modelType(nt) {
@@ -545,6 +552,9 @@ func (e *taintEngine) loadKind(addr ssa.Value, depth int) SK {
 	switch x := addr.(type) {
 	case *ssa.FieldAddr:
 		if k, ok := e.modelFieldKind(x.X.Type(), x.Field); ok {
+			if e.cfg.trackOrigins {
+				k.orig = []string{e.modelPath(x)}
+			}
 			return k
 		}
 		if nt := namedOf(x.X.Type()); nt != nil && e.cfg.modelType(nt) {
@@ -615,10 +625,18 @@ func (e *taintEngine) freeVarKind(fv *ssa.FreeVar, depth int) SK {
 
 // resolve replaces parameter dependencies of fn by the join over fn's call sites.
 func (e *taintEngine) resolve(fn *ssa.Function, k SK, depth int) SK {
-	if k.deps == 0 || fn == nil {
-		return SK{k: k.k, why: k.why, srcs: k.srcs, esc: k.esc}
+	if fn != nil && k.odeps != 0 && e.cfg.trackOrigins {
+		for i := 0; i < 64 && i < len(fn.Params); i++ {
+			if k.odeps&(1<<uint(i)) != 0 && k.deps&(1<<uint(i)) == 0 {
+				ak := e.argKind(fn, i, depth+1)
+				k.orig = mergeSrcs(k.orig, ak.orig)
+			}
+		}
 	}
-	out := SK{k: k.k, why: k.why, srcs: k.srcs, esc: k.esc}
+	if k.deps == 0 || fn == nil {
+		return SK{k: k.k, why: k.why, srcs: k.srcs, esc: k.esc, orig: k.orig}
+	}
+	out := SK{k: k.k, why: k.why, srcs: k.srcs, esc: k.esc, orig: k.orig}
 	for i := 0; i < 64 && i < len(fn.Params); i++ {
 		if k.deps&(1<<uint(i)) != 0 {
 			ak := e.argKind(fn, i, depth+1).escaped(k.depEsc) // escapes applied on the way from the parameter to this value
@@ -760,7 +778,7 @@ func (e *taintEngine) sprintfKind(c *ssa.CallCommon, fi int, depth int) SK {
 	if isConst && isMarkupFormat(format) {
 		// a markup-bearing format is a sink itself: its operands are judged there (once), and its
 		// result is renderer-built markup
-		return SK{k: KMarkup}
+		return SK{k: KMarkup, orig: k.orig, odeps: k.odeps | k.deps}
 	}
 	return k
 }
@@ -805,7 +823,17 @@ func (e *taintEngine) bufferWriteKind(v ssa.Value, ci ssa.CallInstruction, depth
 		}
 	}
 	if k, ok := e.cfg.bufWriters[name]; ok && argIdx == 0 {
-		return sk(k)
+		out := sk(k)
+		if e.cfg.trackOrigins {
+			for i, a := range cc.Args {
+				if i != argIdx {
+					ak := e.kind(a, depth+1)
+					out.orig = mergeSrcs(out.orig, ak.orig)
+					out.odeps |= ak.odeps | ak.deps // origins of parameter-derived text are resolved at the call site
+				}
+			}
+		}
+		return out
 	}
 	if callee.Blocks != nil && argIdx >= 0 && argIdx < len(callee.Params) {
 		// in-repo callee writing through the pointer/writer parameter: join of the callee's writes into that parameter
@@ -846,7 +874,16 @@ func (e *taintEngine) paramWrites(fn *ssa.Function, pi int, cc *ssa.CallCommon, 
 
 // substitute maps a callee-symbolic kind into the caller's space using the call's arguments.
 func (e *taintEngine) substitute(k SK, cc *ssa.CallCommon, depth int) SK {
-	out := SK{k: k.k, why: k.why, srcs: k.srcs, esc: k.esc}
+	out := SK{k: k.k, why: k.why, srcs: k.srcs, esc: k.esc, orig: k.orig}
+	if e.cfg.trackOrigins {
+		for i := 0; i < 64 && i < len(cc.Args); i++ {
+			if k.odeps&(1<<uint(i)) != 0 && k.deps&(1<<uint(i)) == 0 {
+				ak := e.kind(cc.Args[i], depth+1)
+				out.orig = mergeSrcs(out.orig, ak.orig)
+				out.odeps |= ak.odeps | ak.deps
+			}
+		}
+	}
 	for i := 0; i < 64 && i < len(cc.Args); i++ {
 		if k.deps&(1<<uint(i)) != 0 {
 			ak := e.kind(cc.Args[i], depth+1).escaped(k.depEsc)
@@ -909,7 +946,15 @@ func (e *taintEngine) callKind(c *ssa.Call, resultIdx int, depth int) SK {
 		name = callee.Origin().String()
 	}
 	if e.cfg.sanitizers[name] {
-		return sk(KSan)
+		out := sk(KSan)
+		if e.cfg.trackOrigins {
+			for _, a := range cc.Args {
+				ak := e.kind(a, depth+1)
+				out.orig = mergeSrcs(out.orig, ak.orig)
+				out.odeps |= ak.odeps | ak.deps
+			}
+		}
+		return out
 	}
 	if idxs, ok := e.cfg.passthrough[name]; ok {
 		k := sk(KConst)
@@ -1262,4 +1307,44 @@ func loopEscapeMask(fn *ssa.Function) uint8 {
 	}
 	loopMaskMemo[fn] = m
 	return m
+}
+
+// modelPath renders the access path of a model field: outermost model type, then the field names
+// (embedded struct levels are skipped, slice elements are transparent).
+func (e *taintEngine) modelPath(v ssa.Value) string {
+	var names []string
+	root := ""
+	cur := v
+	for i := 0; i < 12; i++ {
+		var x ssa.Value
+		idx := -1
+		switch t := cur.(type) {
+		case *ssa.Field:
+			x, idx = t.X, t.Field
+		case *ssa.FieldAddr:
+			x, idx = t.X, t.Field
+		case *ssa.UnOp:
+			cur = t.X
+			continue
+		case *ssa.IndexAddr:
+			cur = t.X
+			continue
+		case *ssa.Index:
+			cur = t.X
+			continue
+		}
+		if x == nil {
+			break
+		}
+		nt := namedOf(x.Type())
+		if nt == nil || !e.cfg.modelType(nt) {
+			break
+		}
+		if fv := fieldVarOf(x.Type(), idx); fv != nil && !fv.Embedded() {
+			names = append([]string{fv.Name()}, names...)
+		}
+		root = nt.Obj().Name()
+		cur = x
+	}
+	return root + "." + strings.Join(names, ".")
 }
